@@ -7,6 +7,7 @@ import CookModel.Lemmas.CollectorBack
 import CookModel.Lemmas.CollectorInterRef
 import CookModel.Lemmas.CollectorStrictWB
 import CookModel.Lemmas.CollectorShape
+import CookModel.Lemmas.CollectorTextItems
 /-
   C06  The recipe model is referentially consistent.
 
@@ -537,6 +538,32 @@ theorem C06_relations_shaped (env : Env) (input : Str) (c : Col α)
     (h : (parseRecipe (α := α) env input).output = some c) : RelationsShaped c :=
   C06_relations_shaped_of_events env input _ c (pullEvents_evOK env.cs env.ext input) h
 
+/-- no text item (`Item::Text`) of a step is empty -/
+def TextItemsNonEmpty (c : Col α) : Prop :=
+  ∀ sec ∈ c.sections, ∀ ct ∈ sec.content, ∀ st, ct = .step st → ∀ v, Item.text v ∈ st.items → v ≠ []
+
+/-- the parser-side lemma: every `Text` event `pullEvents` emits carries a non-empty text (`parse_step`
+    pushes the text only when it has a fragment, `parse_text_block` only when it is not blank, and
+    `Text::append` never stores an empty fragment) -/
+theorem C06_parser_text_events_nonempty (cs : CharSpec) (ext : Ext) (input : Str) :
+    ∀ ev ∈ (pullEvents (α := α) cs ext input).1.toList, TextNE ev := pullEvents_textNE cs ext input
+
+/-- for ANY list of `EvOK` events whose `Text` events are non-empty: no step of the returned recipe has an
+    empty text item (with INLINE_QUANTITIES the pieces around an inline quantity are pushed only when
+    non-empty) -/
+theorem C06_text_items_nonempty_of_events (env : Env) (input : Str) (evs : List (Ev α)) (c : Col α)
+    (hev : ∀ ev ∈ evs, EvOK ev) (hne : ∀ ev ∈ evs, TextNE ev)
+    (h : (parseEventsLoop env input evs {}).output = some c) : TextItemsNonEmpty c :=
+  parseEventsLoop_txt env input evs {} c (Inv.init env) TxtInv.init hev hne h
+
+/-- **No text item is empty.**  In every recipe `parse` returns (valid or not, any extensions): every
+    `Item::Text` of every step has a non-empty value (besides: no section, step or text paragraph is
+    empty, `RecipeInv`). -/
+theorem C06_no_empty_text_item (env : Env) (input : Str) (c : Col α)
+    (h : (parseRecipe (α := α) env input).output = some c) : TextItemsNonEmpty c :=
+  C06_text_items_nonempty_of_events env input _ c (pullEvents_evOK env.cs env.ext input)
+    (pullEvents_textNE env.cs env.ext input) h
+
 /-- **C06, every clause.**  Every recipe `parse` returns — for every input, extension set and converter
     environment, valid or alongside errors — satisfies `RecipeInv` (item indices in range, ingredient
     references point to an earlier definition that lists them back exactly once, nothing empty, steps
@@ -545,12 +572,12 @@ theorem C06_relations_shaped (env : Env) (input : Str) (c : Col α)
     every `referenced_from` entry is a later reference to the definition listing it; a step reference
     addresses an earlier step of the same section and a section reference an earlier section; a
     reference has the name of its definition up to case; every reference carries its target kind and every
-    section target exists; and when the report has no error a component
+    section target exists; no text item of a step is empty; and when the report has no error a component
     is a reference exactly when it carries the reference modifier. -/
 theorem C06_holds_full (env : Env) (input : Str) (c : Col Rat)
     (h : (parseRecipe (α := Rat) env input).output = some c) :
     RecipeInv c ∧ OrdFinal c ∧ CookwareRefsOK c ∧ BacklinksSound c ∧ StepRefsOK c ∧ SectionRefsOK c ∧
-    RefNamesMatch env c ∧ RelationsShaped c ∧
+    RefNamesMatch env c ∧ RelationsShaped c ∧ TextItemsNonEmpty c ∧
     ((∀ d ∈ (parseRecipe (α := Rat) env input).diags.toList, d.sev ≠ Sev.error) →
       (∀ (k : Nat) (ig : Ingredient (ScalableValue Rat)), c.ingredients[k]? = some ig →
         (ig.relation.relation.isReference = true ↔ ig.modifiers.contains Modifiers.REF = true)) ∧
@@ -559,7 +586,8 @@ theorem C06_holds_full (env : Env) (input : Str) (c : Col Rat)
   ⟨C06_holds env input c h, (C06_holds_extended env input c h).2.1, C06_cookware_references env input c h,
    C06_backlinks_sound env input c h, C06_step_reference_target env input c h,
    C06_section_reference_target env input c h, C06_reference_name_matches env input c h,
-   C06_relations_shaped env input c h, (C06_holds_extended env input c h).2.2⟩
+   C06_relations_shaped env input c h, C06_no_empty_text_item env input c h,
+   (C06_holds_extended env input c h).2.2⟩
 
 /-! non-vacuity of the new predicates and hypotheses -/
 
@@ -609,6 +637,19 @@ example : ¬ SectionRefsOK (exRecipe ⟨.reference 1, some .section⟩) := by
   intro h
   have := h 1 _ rfl 2 _ rfl 0 (by simp) _ rfl 1 rfl
   omega
+
+-- an empty text item is rejected; the events of the example below have non-empty texts
+example : TextItemsNonEmpty (exRecipe ⟨.reference 0, some .step⟩) := by
+  intro sec hsec ct hct st hst v hv
+  simp only [exRecipe, List.mem_cons, List.mem_nil_iff, or_false] at hsec
+  rcases hsec with rfl | rfl <;> simp only [List.mem_cons, List.mem_nil_iff, or_false] at hct
+  · subst hct; cases hst; simp at hv; subst hv; simp
+  · rcases hct with rfl | rfl | rfl <;> cases hst <;> simp at hv
+    subst hv; simp
+example : ¬ TextItemsNonEmpty (α := Rat) { sections := [⟨none, [.step ⟨[.text []], 1⟩]⟩] } := by
+  intro h
+  exact h ⟨none, [.step ⟨[.text []], 1⟩]⟩ List.mem_cons_self (.step ⟨[.text []], 1⟩) List.mem_cons_self _ rfl []
+    List.mem_cons_self rfl
 
 -- a reference without target kind, or a section target past the end, is rejected
 example : RelationsShaped (exRecipe ⟨.reference 1, some .section⟩) := by
@@ -675,6 +716,11 @@ example : (parseEventsLoop exFoldEnv [] exFoldEvs {}).output.map
            ⟨some ['s'], [.step ⟨[.text ['b']], 1⟩,
                          .step ⟨[.ingredient 1, .ingredient 2, .ingredient 3, .cookware 1], 2⟩]⟩]) := by rfl
 example : (parseEventsLoop exFoldEnv [] exFoldEvs {}).diags.toList = [] := by rfl
+example : ∀ ev ∈ exFoldEvs, TextNE ev := by
+  intro ev hmem
+  simp only [exFoldEvs, List.mem_cons, List.mem_nil_iff, or_false] at hmem
+  rcases hmem with rfl | rfl | rfl | rfl | rfl | rfl | rfl | rfl | rfl | rfl | rfl | rfl | rfl | rfl <;>
+    first | trivial | (show (exTx 'b').text ≠ []; decide)
 example : SectionsOutsideBlocks exFoldEvs :=
   ⟨_, rfl, _, rfl, _, rfl, _, rfl, _, rfl, _, rfl, _, rfl, _, rfl, _, rfl, _, rfl, _, rfl, _, rfl, _, rfl, _, rfl, trivial⟩
 
